@@ -37,8 +37,8 @@ ASSUMPTIONS = [
 EXPECTED_PROBES = ["foreign.cmap", "foreign.GPOS", "passthrough.no_decoder_checked", "passthrough.tables_checked", "content.tables_checked", "fixedpoint.checked", "source.short", "source.unseekable", "lazy.True"]
 
 TIERS = {
-    "quick": {"budget_s": 170, "determinism_sample": 12, "n": {"sweep": 9000}, "minimise_s": 40, "max_minimise": 3},
-    "thorough": {"budget_s": 1700, "determinism_sample": 120, "n": {"sweep": 40000}, "minimise_s": 120, "max_minimise": 6},
+    "quick": {"budget_s": 600, "determinism_sample": 12, "n": {"sweep": 9000}, "minimise_s": 40, "max_minimise": 3},
+    "thorough": {"budget_s": 5400, "determinism_sample": 120, "n": {"sweep": 40000}, "minimise_s": 120, "max_minimise": 6},
 }
 
 # ---------------------------------------------------------------------------
